@@ -125,6 +125,7 @@ type simEvent struct {
 	end  int
 	data []byte
 	fn   func()
+	fec  bool // the datagram reaches the core as a packet rebuilt by FEC (late, older than what arrived meanwhile)
 }
 
 const (
@@ -166,6 +167,8 @@ func (h *simEvHeap) Pop() any {
 }
 
 type coreEnd struct {
+	peerWnd      uint32 // window carried by the last datagram that arrived on the wire itself
+	peerWndKnown bool
 	idx  int
 	name string
 	k    *KCP
@@ -215,6 +218,8 @@ type coreEnd struct {
 }
 
 type simCore struct {
+	recoverEvery int
+	recovered    int64
 	rec    *vrec
 	desc   any
 	t0     time.Time
@@ -393,6 +398,11 @@ func (s *simCore) onOutput(e *coreEnd, buf []byte, size int) {
 	delays := s.fate(dir, nth, s.now, data)
 	if len(delays) == 0 {
 		s.drops++
+		if s.recoverEvery > 0 && s.drops%int64(s.recoverEvery) == 0 && s.mangle == nil {
+			// as if parity had rebuilt it: it arrives late and marked as recovered
+			s.recovered++
+			s.push(&simEvent{t: s.now + 15 + int64(nth%7)*9, kind: evArrive, end: 1 - dir, data: data, fec: true})
+		}
 		return
 	}
 	if len(delays) > 1 {
@@ -496,10 +506,32 @@ func installSimHooks() {
 // ---------------------------------------------------------------------------
 // event processing
 
-func (s *simCore) input(e *coreEnd, data []byte) int {
+func (s *simCore) input(e *coreEnd, data []byte) int { return s.inputTyped(e, data, false) }
+
+func (s *simCore) inputTyped(e *coreEnd, data []byte, fec bool) int {
 	// the core sees a private copy, as the read loop's buffer would be
 	buf := append([]byte(nil), data...)
-	r := e.k.Input(buf, IKCP_PACKET_REGULAR, e.cfg.AckNoDelay)
+	typ := IKCP_PACKET_REGULAR
+	if fec {
+		typ = IKCP_PACKET_FEC
+	}
+	r := e.k.Input(buf, typ, e.cfg.AckNoDelay)
+	// the peer's window as the core must see it: the one carried by the last
+	// datagram that arrived on the wire itself. A packet rebuilt by FEC is older
+	// than the ones that made its recovery possible; its window is history.
+	if !fec && r == 0 {
+		if segs, perr := parseKCP(data); perr == "" && len(segs) > 0 {
+			e.peerWnd, e.peerWndKnown = uint32(segs[len(segs)-1].wnd), true
+		}
+	}
+	if e.peerWndKnown && e.k.rmt_wnd != e.peerWnd {
+		what := "a datagram from the wire"
+		if fec {
+			what = "a packet rebuilt by FEC"
+		}
+		s.viol("C04 sender's view of the peer's window is not the window the peer advertised last", "end %s after %s: rmt_wnd=%d, last window seen on the wire %d", e.name, what, e.k.rmt_wnd, e.peerWnd)
+		e.peerWndKnown = false
+	}
 	s.noteFlush(e)
 	return r
 }
@@ -578,7 +610,7 @@ func (s *simCore) run(done func() bool) bool {
 		case evArrive:
 			e = s.ends[ev.end]
 			s.delivered++
-			r := s.input(e, ev.data)
+			r := s.inputTyped(e, ev.data, ev.fec)
 			s.traceNote('i', e, int64(r))
 			s.appStep(e, e.app.ReadEvery == 0)
 		case evTick:
@@ -660,6 +692,9 @@ func (s *simCore) afterEvent(e *coreEnd, before snmpLoss) {
 		s.viol("C04 more than a send window of segments outstanding", "end %s: snd_nxt-snd_una=%d snd_wnd=%d", e.name, out, k.snd_wnd)
 	} else if int(out) > e.maxInflight {
 		e.maxInflight = int(out)
+	}
+	if (e.cfg.RcvWnd > 0 && k.rcv_wnd != uint32(e.cfg.RcvWnd)) || (e.cfg.SndWnd > 0 && k.snd_wnd != uint32(e.cfg.SndWnd)) {
+		s.viol("C04 window in force is not the configured one", "end %s: snd_wnd=%d rcv_wnd=%d, configured %d/%d", e.name, k.snd_wnd, k.rcv_wnd, e.cfg.SndWnd, e.cfg.RcvWnd)
 	}
 	if k.rx_rto < k.rx_minrto || k.rx_rto < e.cfg.minRTO() || k.rx_rto > IKCP_RTO_MAX {
 		s.viol("C18 retransmission timeout outside [minimum, 60s]", "end %s: rx_rto=%d, minimum configured %d (nodelay=%d), core's own minimum %d", e.name, k.rx_rto, e.cfg.minRTO(), e.cfg.NoDelay, k.rx_minrto)
@@ -921,6 +956,7 @@ type netProfile struct {
 	Outages   [][2]int `json:"outages,omitempty"`       // [from,to) ms: everything dropped
 	HealAt    int      `json:"heal_at"`                 // after this: no loss/dup, delay <= DelayMin..DelayMin+HealJit
 	HealJit   int      `json:"heal_jitter"`
+	Recover   int      `json:"recovered_every,omitempty"` // every n-th dropped datagram still arrives, late and as a packet rebuilt by FEC
 	LossyFrom int      `json:"lossy_from,omitempty"` // before this time: no loss, no duplication, constant delay DelayMin (FIFO)
 }
 
